@@ -82,7 +82,35 @@ def open_rules(ctx):
     c14.mmap_open_rule_as(ctx, "C17.M")
 
 
+WRITERS = [("composition::oligo::OligoComputer::vectorise_mmap", "oligo::vectorise_mmap"),
+           ("composition::oligo::OligoComputer::vectorise_batch", "oligo::vectorise_batch"),
+           ("composition::cgr::CgrComputer::vectorise", "cgr::vectorise"),
+           ("composition::oligocgr::OligoCgrComputer::vectorise", "oligocgr::vectorise"),
+           ("coverage::CovComputer::compute_coverages", "compute_coverages"),
+           ("counter::CountComputer::merge", "merge"),
+           ("misc::minimisers::bin_sequences", "bin_sequences"),
+           ("misc::minimisers::seq_to_min", "seq_to_min")]
+
+
+def writers_rule(ctx, R="C17.W"):
+    for path, who in WRITERS:
+        fv = ctx.need(R, path)
+        if fv is not None:
+            rule_output_always_created(ctx, R, fv, who)
+
+
 def rest_rules(ctx):
+    writers_rule(ctx)
+    # the counter rebuilds its whole (partition, chunk) grid and the coverage table on every run
+    fcc, fcm, fcn = ctx.view(c07.CHUNK), ctx.view(c07.MERGE), ctx.view(c07.COUNT)
+    d = dep(ctx, "C17", "C07")
+    if fcc is not None and fcn is not None:
+        c07.chunk_rule(d, fcn, fcc)
+    if fcm is not None:
+        c07.merge_rule(d, fcm)
+        c07.delete_rule(d, fcm)
+    from . import c08
+    c08.table_rule(dep(ctx, "C17", "C08"))
     # G
     fc, fm = ctx.need("C17.G", c07.CHUNK), ctx.need("C17.G", c07.MERGE)
     if fc is not None and fm is not None:
